@@ -13,11 +13,13 @@ Definition fuel : nat := S (S (length flags)).
 Definition known_sets : list (list nat) := singletons flags ++ pairs_of flags.
 
 (* --- generic glue -------------------------------------------------------------------------------------------- *)
-Lemma fkt_spec : forall fl sets P, forall_known_target fl sets P = true ->
-  forall k t, In k sets -> In t fl -> P k t = true.
+Lemma check_all_spec : forall fu convs fl sets P, check_all fu convs fl sets P = true ->
+  forall ktos t, In ktos sets -> In t fl -> exists p, mfront_path fu convs ktos t = Some p /\ P ktos t p = true.
 Proof.
-  unfold forall_known_target. intros fl sets P H k t Hk Ht.
-  rewrite forallb_forall in H. specialize (H k Hk). rewrite forallb_forall in H. exact (H t Ht).
+  unfold check_all. intros fu convs fl sets P H ktos t Hk Ht.
+  rewrite forallb_forall in H. specialize (H ktos Hk). unfold check_set in H. unfold mfront_path.
+  destruct (mfront_paths fu convs ktos) as [ps|]; [|discriminate H].
+  rewrite forallb_forall in H. exists (get_shortest_path ps t). split; [reflexivity | exact (H t Ht)].
 Qed.
 
 Lemma in_singletons : forall a l, In a l -> In [a] (singletons l).
@@ -49,23 +51,31 @@ Lemma table_wf_ok : table_wf = true.
 Proof. vm_cast_no_check (eq_refl true). Qed.
 
 (* --- boolean facts, by computation --------------------------------------------------------------------------- *)
-Lemma valid_all : forall_known_target flags known_sets (valid_at fuel converters) = true.
+Definition all_p (ktos : list nat) (t : nat) (p : path) : bool :=
+  valid_p converters ktos t p && (complete_p fuel converters ktos t p && shortest_p fuel converters ktos t p).
+
+Lemma all_ok : check_all fuel converters flags known_sets all_p = true.
 Proof. vm_cast_no_check (eq_refl true). Qed.
 
-Lemma complete_all : forall_known_target flags known_sets (complete_at fuel converters) = true.
-Proof. vm_cast_no_check (eq_refl true). Qed.
-
-Lemma shortest_all : forall_known_target flags known_sets (shortest_at fuel converters) = true.
-Proof. vm_cast_no_check (eq_refl true). Qed.
+Lemma all_at : forall ktos t, In ktos known_sets -> In t flags ->
+  exists p, mfront_path fuel converters ktos t = Some p /\
+            valid_p converters ktos t p = true /\ complete_p fuel converters ktos t p = true /\
+            shortest_p fuel converters ktos t p = true.
+Proof.
+  intros ktos t Hk Ht. destruct (check_all_spec _ _ _ _ _ all_ok ktos t Hk Ht) as [p [E H]].
+  exists p. split; [exact E|]. unfold all_p in H.
+  apply andb_true_iff in H. destruct H as [H1 H]. apply andb_true_iff in H. destruct H as [H2 H3].
+  split; [exact H1 | split; [exact H2 | exact H3]].
+Qed.
 
 (* the reachability sets are closed under the conversions (the fuel of `closure` was sufficient) and the breadth-first
    distance is defined exactly on the reachable targets *)
-Definition reach_ok_at (ktos : list nat) (t : nat) : bool :=
+Definition reach_ok_set (ktos : list nat) : bool :=
   closed converters (closure fuel converters (add_new [] [] (succs converters ktos))) &&
-  (mem t ktos || Bool.eqb (reachable fuel converters ktos t)
-                          (match bfs_dist fuel converters ktos t with Some _ => true | None => false end)).
+  forallb (fun t => mem t ktos || Bool.eqb (reachable fuel converters ktos t)
+                          (match bfs_dist fuel converters ktos t with Some _ => true | None => false end)) flags.
 
-Lemma reach_ok_all : forall_known_target flags known_sets reach_ok_at = true.
+Lemma reach_ok_all : forallb reach_ok_set known_sets = true.
 Proof. vm_cast_no_check (eq_refl true). Qed.
 
 (* --- readable statements -------------------------------------------------------------------------------------- *)
@@ -75,9 +85,8 @@ Lemma paths_valid : forall from to, In from flags -> In to flags ->
             (p = [] \/ (valid_chain converters from to p = true /\ simple_path [from] p = true)).
 Proof.
   intros from to Hf Ht.
-  pose proof (fkt_spec _ _ _ valid_all [from] to (in_known_single _ Hf) Ht) as H.
-  unfold valid_at in H. destruct (mfront_path fuel converters [from] to) as [p|]; [|discriminate H].
-  exists p. split; [reflexivity|].
+  destruct (all_at [from] to (in_known_single _ Hf) Ht) as [p [E [H [_ _]]]].
+  exists p. split; [exact E|]. unfold valid_p in H.
   apply orb_true_iff in H. destruct H as [H|H].
   - left. apply is_nil_true. exact H.
   - right. apply andb_true_iff in H. destruct H as [H1 H2]. split; [|exact H2].
@@ -92,9 +101,8 @@ Lemma paths_valid_pairs : forall ktos to, In ktos (pairs_of flags) -> In to flag
             (p = [] \/ (valid_chain_from_set converters ktos to p = true /\ simple_path ktos p = true)).
 Proof.
   intros ktos to Hk Ht.
-  pose proof (fkt_spec _ _ _ valid_all ktos to (in_known_pair _ Hk) Ht) as H.
-  unfold valid_at in H. destruct (mfront_path fuel converters ktos to) as [p|]; [|discriminate H].
-  exists p. split; [reflexivity|].
+  destruct (all_at ktos to (in_known_pair _ Hk) Ht) as [p [E [H [_ _]]]].
+  exists p. split; [exact E|]. unfold valid_p in H.
   apply orb_true_iff in H. destruct H as [H|H].
   - left. apply is_nil_true. exact H.
   - right. apply andb_true_iff in H. exact H.
@@ -106,9 +114,8 @@ Lemma paths_complete : forall from to, In from flags -> In to flags -> to <> fro
             (p <> [] <-> reachable fuel converters [from] to = true).
 Proof.
   intros from to Hf Ht Hne.
-  pose proof (fkt_spec _ _ _ complete_all [from] to (in_known_single _ Hf) Ht) as H.
-  unfold complete_at in H. destruct (mfront_path fuel converters [from] to) as [p|]; [|discriminate H].
-  exists p. split; [reflexivity|].
+  destruct (all_at [from] to (in_known_single _ Hf) Ht) as [p [E [_ [H _]]]].
+  exists p. split; [exact E|]. unfold complete_p in H.
   rewrite (mem_single_false _ _ Hne) in H. rewrite orb_false_l in H. apply eqb_prop in H.
   rewrite <- H. clear H. destruct p as [|c r]; simpl; split; intro K.
   - exfalso. apply K. reflexivity.
@@ -122,9 +129,8 @@ Lemma paths_complete_pairs : forall ktos to, In ktos (pairs_of flags) -> In to f
             (p <> [] <-> reachable fuel converters ktos to = true).
 Proof.
   intros ktos to Hk Ht Hne.
-  pose proof (fkt_spec _ _ _ complete_all ktos to (in_known_pair _ Hk) Ht) as H.
-  unfold complete_at in H. destruct (mfront_path fuel converters ktos to) as [p|]; [|discriminate H].
-  exists p. split; [reflexivity|].
+  destruct (all_at ktos to (in_known_pair _ Hk) Ht) as [p [E [_ [H _]]]].
+  exists p. split; [exact E|]. unfold complete_p in H.
   rewrite Hne in H. rewrite orb_false_l in H. apply eqb_prop in H.
   rewrite <- H. clear H. destruct p as [|c r]; simpl; split; intro K.
   - exfalso. apply K. reflexivity.
@@ -142,9 +148,8 @@ Lemma paths_shortest : forall from to, In from flags -> In to flags -> to <> fro
             end.
 Proof.
   intros from to Hf Ht Hne.
-  pose proof (fkt_spec _ _ _ shortest_all [from] to (in_known_single _ Hf) Ht) as H.
-  unfold shortest_at in H. destruct (mfront_path fuel converters [from] to) as [p|]; [|discriminate H].
-  exists p. split; [reflexivity|].
+  destruct (all_at [from] to (in_known_single _ Hf) Ht) as [p [E [_ [_ H]]]].
+  exists p. split; [exact E|]. unfold shortest_p in H.
   rewrite (mem_single_false _ _ Hne) in H. rewrite orb_false_l in H.
   destruct (bfs_dist fuel converters [from] to) as [d|].
   - apply Nat.eqb_eq. exact H.
@@ -159,28 +164,10 @@ Lemma paths_shortest_pairs : forall ktos to, In ktos (pairs_of flags) -> In to f
             end.
 Proof.
   intros ktos to Hk Ht Hne.
-  pose proof (fkt_spec _ _ _ shortest_all ktos to (in_known_pair _ Hk) Ht) as H.
-  unfold shortest_at in H. destruct (mfront_path fuel converters ktos to) as [p|]; [|discriminate H].
-  exists p. split; [reflexivity|].
+  destruct (all_at ktos to (in_known_pair _ Hk) Ht) as [p [E [_ [_ H]]]].
+  exists p. split; [exact E|]. unfold shortest_p in H.
   rewrite Hne in H. rewrite orb_false_l in H.
   destruct (bfs_dist fuel converters ktos to) as [d|].
   - apply Nat.eqb_eq. exact H.
   - apply is_nil_true. exact H.
-Qed.
-
-(* the independent notions are consistent on this table *)
-Lemma reach_consistent : forall ktos to, In ktos known_sets -> In to flags ->
-  closed converters (closure fuel converters (add_new [] [] (succs converters ktos))) = true /\
-  (mem to ktos = false ->
-   (reachable fuel converters ktos to = true <-> exists d, bfs_dist fuel converters ktos to = Some d)).
-Proof.
-  intros ktos to Hk Ht.
-  pose proof (fkt_spec _ _ _ reach_ok_all ktos to Hk Ht) as H. unfold reach_ok_at in H.
-  apply andb_true_iff in H. destruct H as [H1 H2]. split; [exact H1|].
-  intro Hne. rewrite Hne in H2. rewrite orb_false_l in H2. apply eqb_prop in H2. rewrite H2.
-  destruct (bfs_dist fuel converters ktos to) as [d|]; split; intro K.
-  - exists d. reflexivity.
-  - reflexivity.
-  - discriminate K.
-  - destruct K as [d K]. discriminate K.
 Qed.
